@@ -49,14 +49,18 @@ def proj_state(state):
 OPD = {"op": "-", "d": "d", "k": "", "v": "", "ver": -1, "n": 0, "at_secondary": False}
 
 
-def normalize(raw_files, out_path, primary="n1"):
+def normalize(raw_files, out_path, primary="n1", only=None):
     import common
     n = runs = 0
     panicked = set()
     with open(out_path, "w") as g:
         for rf in raw_files:
             for line in open(rf):
+                if '"ev":"st"' in line[:12]:
+                    continue
                 raw = json.loads(line)
+                if only is not None and raw.get("run") not in only:
+                    continue
                 ev = raw["ev"]
                 o = None
                 if ev in ("repl", "sup") and raw.get("dead"):
